@@ -33,6 +33,21 @@ pub struct DriveOpts {
     pub empty_splitters: bool,
 }
 
+/// Splitter set to use for the next create on this thread instead of the one determined from
+/// the reference (taken, i.e. used once). Lets a case plant splitter k-mers of a chosen shape.
+thread_local! {
+    pub static PLANTED_SPLITTERS: std::cell::RefCell<Option<Vec<u64>>> = const { std::cell::RefCell::new(None) };
+}
+
+/// Canonical value of the k-mer spelled by `bases` (codes 0..3), in ragc's own representation
+pub fn canonical_kmer_value(bases: &[u8]) -> u64 {
+    let mut km = ragc_core::kmer::Kmer::new(bases.len() as u32, ragc_core::kmer::KmerMode::Canonical);
+    for &b in bases {
+        km.insert(b as u64);
+    }
+    km.data()
+}
+
 pub fn create(path: &str, set: &SampleSet, p: &Params) -> Result<()> {
     create_with(path, set, p, &DriveOpts::default())
 }
@@ -44,16 +59,21 @@ pub fn create_with(path: &str, set: &SampleSet, p: &Params, opts: &DriveOpts) ->
 /// Like `create_with`, under the guard (event log on, stuck-state detector armed); also returns
 /// the hook events of the run
 pub fn create_logged(path: &str, set: &SampleSet, p: &Params, opts: &DriveOpts) -> (Result<()>, Vec<crate::mon::Ev>) {
-    crate::mon::run_guarded(p.threads, || create_unguarded(path, set, p, opts))
+    let planted = PLANTED_SPLITTERS.with(|c| c.borrow_mut().take());
+    crate::mon::run_guarded(p.threads, || create_unguarded(path, set, p, opts, planted))
 }
 
-fn create_unguarded(path: &str, set: &SampleSet, p: &Params, opts: &DriveOpts) -> Result<()> {
+fn create_unguarded(path: &str, set: &SampleSet, p: &Params, opts: &DriveOpts, planted: Option<Vec<u64>>) -> Result<()> {
     // splitters come from the first input file (multi-file) or the first sample (single file);
     // with one sample per file these are the same contigs
     let ref_contigs: Vec<Vec<u8>> = set.samples[0].contigs.iter().map(|c| c.1.clone()).collect();
     let (mut splitters, _, _) = determine_splitters(&ref_contigs, p.k, p.segment_size);
     if opts.empty_splitters {
         splitters.clear();
+    }
+    if let Some(pl) = planted {
+        splitters.clear();
+        splitters.extend(pl);
     }
     let mut c = StreamingQueueCompressor::with_splitters(path, config(p), splitters)?;
     let mut pushed = 0usize;
